@@ -287,8 +287,13 @@ func verifHarnessC15Updater() {
 	var built []*verifBuilt
 	builds := 0
 	installedDuringBuild := false
+	var uref *Updater[*verifBuilt]
 	builder := func(bs []byte) (*verifBuilt, error) {
 		builds++
+		if uref != nil {
+			// drain-the-flag, read, build and commit are one atomic step of Get: concurrent Gets cannot overtake each other
+			assert("rebuild-is-atomic-under-updater-lock", held(&uref.mu))
+		}
 		seen := append([]byte(nil), bs...)
 		// the builder runs outside the store's lock: a poll may install a new version meanwhile
 		if nondetBool("install.during.build") {
@@ -310,6 +315,7 @@ func verifHarnessC15Updater() {
 		reach("end-create-failed")
 		return
 	}
+	uref = u
 	assert("watcher-registered", len(s.active.w[name]) == 1)
 	cur := u.value
 	installedSinceGet := installedDuringBuild // an install that raced the creation must not be lost
